@@ -52,7 +52,7 @@ class RenderScenario(StubScenario):
     """render_annotation is answered by `anno_text` (default: the annotation token's own text)."""
 
     def __init__(self, repo: Repo, func: str, anno_text: Optional[Callable[[V], str]] = None, inline_annotation: bool = False) -> None:
-        inline = ("render_signature", "render_parameter", "_is_optional", "_get_optional_elem")
+        inline = ("render_signature", "render_parameter", "_is_optional", "_get_optional_elem", "strip_module_prefixes")
         super().__init__(repo, func, call_hook=self._hook, inline=inline)
         self.anno_text = anno_text or (lambda v: v.name.split(":")[-1] if isinstance(v, S) else "object")
         self.ri.dispatch_instances = True
@@ -64,6 +64,8 @@ class RenderScenario(StubScenario):
     def _hook(self, call: ast.Call, fname: Optional[str], fval: Optional[V], args: List[V], kwargs: Dict[str, V], st: State) -> Optional[V]:
         if fname == "render_annotation" and not self.inline_annotation:
             return K(self.anno_text(args[0]))
+        if fname == "get_imports_for_annotation" and not self.inline_annotation:
+            return R("dict", items=())  # abstract annotation tokens live in no module: nothing to import or strip
         if fname == "sorted" and len(args) == 1 and isinstance(args[0], K) and isinstance(args[0].v, frozenset):
             if all(isinstance(x, K) and isinstance(x.v, str) for x in args[0].v):
                 return st.alloc("list", sorted(args[0].v, key=lambda k: k.v))
@@ -142,6 +144,8 @@ def build_module_stubs(repo: Repo, entries: List[R], imports_of: Optional[Callab
             return st.alloc("defaultdict", ("dd", "set", d))
         if fname == "ImportMap" and not args:
             return st.alloc("defaultdict", ("dd", "set", {}))
+        if fname == "get_imports_for_annotation":
+            return st.alloc("defaultdict", ("dd", "set", {}))  # the fields of abstract class stubs use no importable names
         if isinstance(call.func, ast.Attribute) and call.func.attr == "merge" and isinstance(fval, Ref) and fval.kind == "defaultdict":
             return sc.ri.inline_call(merge, call, fval, args, kwargs, st)
         return None
